@@ -15,7 +15,7 @@ def run(ctx, scheme_arg, mc_cfg):
                                                key=lambda e, c: "keyblind %s %s %s" % (c.get("scheme"), e.get("op"), e["_why"]))
     ops = {}
     for c in cases:
-        for s in c["steps"]:
+        for s in c.get("steps", []):
             k = c["scheme"] + "/" + s["op"]
             ops[k] = ops.get(k, 0) + 1
     nops = sum(ops.values())
